@@ -95,6 +95,8 @@ pub enum IntKey {
     CfgRaw,
     ValRaw(u8),
     SumRaw,
+    /// `pair_parent(db, x)`: a raw parent whose children share its first parameter
+    PairRaw(u8),
     Interned(i32),
 }
 
@@ -104,6 +106,7 @@ impl IntKey {
             IntKey::CfgRaw => Node::CfgRaw,
             IntKey::ValRaw(k) => Node::ValRaw(k),
             IntKey::SumRaw => Node::SumRaw,
+            IntKey::PairRaw(x) => Node::PairParent(x),
             IntKey::Interned(v) => Node::InternVal(v),
         }
     }
@@ -138,6 +141,10 @@ pub enum Node {
     UseChain,
     RowParam(Row),
     KeysTotal,
+    PairParent(u8),
+    PairChild(u8, Vec<u8>),
+    PairChildRef(u8, Vec<u8>),
+    TripleChild(u8, u8, Vec<u8>),
     // leaves created by interning
     InternVal(i32),
     InternRow(Row),
@@ -208,6 +215,10 @@ pub trait Reader {
     fn use_chain(&self) -> i32;
     fn row_param(&self, h: Self::RowH) -> i32;
     fn keys_total(&self) -> i64;
+    fn pair_parent(&self, x: u8) -> Self::IntH;
+    fn pair_child(&self, x: u8, ys: Vec<u8>) -> i32;
+    fn pair_child_ref(&self, x: u8, ys: &Vec<u8>) -> i64;
+    fn triple_child(&self, x: u8, y: u8, ys: Vec<u8>) -> i32;
 }
 
 fn b_val_of<R: Reader>(r: &R, k: u8) -> i32 {
@@ -326,6 +337,31 @@ fn b_row_param<R: Reader>(r: &R, h: R::RowH) -> i32 {
 /// collection the children can only be re-executed if their parameters were migrated
 fn b_keys_total<R: Reader>(r: &R) -> i64 {
     r.sum_keys(vec![0, 1]) as i64 * 1000 + r.sum_keys_ref(&vec![1, 2])
+}
+
+/// A parent whose children take its own first parameter FIRST and further owned / borrowed
+/// parameters after it; two siblings share (x, ys-prefix) shapes. After a collection that kept the
+/// parent, the children can only be re-verified if ALL their parameters were carried over.
+fn b_pair_parent<R: Reader>(r: &R, x: u8) -> i32 {
+    let a = r.pair_child(x, vec![x % KEYS, 1]);
+    let b = r.pair_child_ref(x, &vec![0, x % KEYS]);
+    let c = r.triple_child(x, 1, vec![2, x % KEYS]);
+    a + (b as i32) * 3 + c * 5
+}
+fn b_pair_child<R: Reader>(r: &R, x: u8, ys: &[u8]) -> i32 {
+    x as i32 * 1000 + b_sum_keys(r, ys)
+}
+fn b_pair_child_ref<R: Reader>(r: &R, x: u8, ys: &[u8]) -> i64 {
+    x as i64 * 7 + b_sum_keys_ref(r, ys)
+}
+fn b_triple_child<R: Reader>(r: &R, x: u8, y: u8, ys: &[u8]) -> i32 {
+    let mut t = x as i32 * 31 + y as i32;
+    for &k in ys {
+        if r.tracked_has(k) {
+            t += r.val_of(k) * 11;
+        }
+    }
+    t
 }
 
 // ------------------------------------------------------------------------------------------------
@@ -470,6 +506,27 @@ fn row_param(db: &TestDb, h: MemoRef<Row>) -> i32 {
 fn keys_total(db: &TestDb) -> i64 {
     db.count(Node::KeysTotal);
     b_keys_total(&P(db))
+}
+
+#[memo(raw)]
+fn pair_parent(db: &TestDb, x: u8) -> i32 {
+    db.count(Node::PairParent(x));
+    b_pair_parent(&P(db), x)
+}
+#[memo]
+fn pair_child(db: &TestDb, x: u8, ys: Vec<u8>) -> i32 {
+    db.count(Node::PairChild(x, ys.clone()));
+    b_pair_child(&P(db), x, &ys)
+}
+#[memo]
+fn pair_child_ref(db: &TestDb, x: u8, ys: &Vec<u8>) -> i64 {
+    db.count(Node::PairChildRef(x, ys.clone()));
+    b_pair_child_ref(&P(db), x, ys)
+}
+#[memo]
+fn triple_child(db: &TestDb, x: u8, y: u8, ys: Vec<u8>) -> i32 {
+    db.count(Node::TripleChild(x, y, ys.clone()));
+    b_triple_child(&P(db), x, y, &ys)
 }
 
 /// `SourceId` -> small key, without touching the database (so it registers no dependency).
@@ -636,6 +693,18 @@ impl<'db> Reader for P<'db> {
     fn keys_total(&self) -> i64 {
         *keys_total(self.0)
     }
+    fn pair_parent(&self, x: u8) -> MemoRef<i32> {
+        register_handle(pair_parent(self.0, x), IntKey::PairRaw(x))
+    }
+    fn pair_child(&self, x: u8, ys: Vec<u8>) -> i32 {
+        *pair_child(self.0, x, ys)
+    }
+    fn pair_child_ref(&self, x: u8, ys: &Vec<u8>) -> i64 {
+        *pair_child_ref(self.0, x, ys)
+    }
+    fn triple_child(&self, x: u8, y: u8, ys: Vec<u8>) -> i32 {
+        *triple_child(self.0, x, y, ys)
+    }
 }
 
 // ------------------------------------------------------------------------------------------------
@@ -759,6 +828,7 @@ impl<'a> Reader for M<'a> {
             IntKey::CfgRaw => self.call(Node::CfgRaw, |m| b_cfg_raw(m)),
             IntKey::ValRaw(k) => self.call(Node::ValRaw(k), |m| b_val_raw(m, k)),
             IntKey::SumRaw => self.call(Node::SumRaw, |m| b_sum_raw(m)),
+            IntKey::PairRaw(x) => self.call(Node::PairParent(x), |m| b_pair_parent(m, x)),
             IntKey::Interned(v) => {
                 self.dep_node(Node::InternVal(v));
                 v
@@ -852,6 +922,19 @@ impl<'a> Reader for M<'a> {
     fn keys_total(&self) -> i64 {
         self.call(Node::KeysTotal, |m| b_keys_total(m))
     }
+    fn pair_parent(&self, x: u8) -> MInt {
+        let val = self.call(Node::PairParent(x), |m| b_pair_parent(m, x));
+        MInt { key: IntKey::PairRaw(x), val }
+    }
+    fn pair_child(&self, x: u8, ys: Vec<u8>) -> i32 {
+        self.call(Node::PairChild(x, ys.clone()), |m| b_pair_child(m, x, &ys))
+    }
+    fn pair_child_ref(&self, x: u8, ys: &Vec<u8>) -> i64 {
+        self.call(Node::PairChildRef(x, ys.clone()), |m| b_pair_child_ref(m, x, ys))
+    }
+    fn triple_child(&self, x: u8, y: u8, ys: Vec<u8>) -> i32 {
+        self.call(Node::TripleChild(x, y, ys.clone()), |m| b_triple_child(m, x, y, &ys))
+    }
 }
 
 // ------------------------------------------------------------------------------------------------
@@ -889,6 +972,10 @@ pub enum CallSpec {
     /// `row_ref(name)` (or `row_ref_b` when `b`) then `row_param(handle)`
     RowParamVia(u8, bool),
     KeysTotal,
+    PairRaw(u8),
+    PairChild(u8, Vec<u8>),
+    PairChildRef(u8, Vec<u8>),
+    TripleChild(u8, u8, Vec<u8>),
 }
 
 #[derive(Clone, Debug, PartialEq, Eq)]
@@ -896,6 +983,7 @@ pub enum RawFn {
     CfgRaw,
     ValRaw(u8),
     SumRaw,
+    PairRaw(u8),
 }
 
 #[derive(Clone, Debug, PartialEq, Eq)]
@@ -934,6 +1022,7 @@ fn intkey_str(k: &IntKey) -> String {
         IntKey::CfgRaw => "cfgraw".into(),
         IntKey::ValRaw(k) => format!("valraw:{k}"),
         IntKey::SumRaw => "sumraw".into(),
+        IntKey::PairRaw(x) => format!("pairraw:{x}"),
         IntKey::Interned(v) => format!("int:{v}"),
     }
 }
@@ -944,6 +1033,8 @@ fn parse_intkey(s: &str) -> Option<IntKey> {
         Some(IntKey::SumRaw)
     } else if let Some(k) = s.strip_prefix("valraw:") {
         Some(IntKey::ValRaw(k.parse().ok()?))
+    } else if let Some(x) = s.strip_prefix("pairraw:") {
+        Some(IntKey::PairRaw(x.parse().ok()?))
     } else if let Some(v) = s.strip_prefix("int:") {
         Some(IntKey::Interned(v.parse().ok()?))
     } else {
@@ -981,6 +1072,10 @@ impl CallSpec {
             UseChain => "use_chain".into(),
             RowParamVia(n, b) => format!("row_param_via {n} {}", if *b { "b" } else { "a" }),
             KeysTotal => "keys_total".into(),
+            PairRaw(x) => format!("pair_parent {x}"),
+            PairChild(x, ys) => format!("pair_child {x} {}", keys_str(ys)),
+            PairChildRef(x, ys) => format!("pair_child_ref {x} {}", keys_str(ys)),
+            TripleChild(x, y, ys) => format!("triple_child {x} {y} {}", keys_str(ys)),
         }
     }
     pub fn decode(w: &[&str]) -> Option<CallSpec> {
@@ -1014,6 +1109,10 @@ impl CallSpec {
             "use_chain" => UseChain,
             "row_param_via" => RowParamVia(k(1)?, a(2)? == "b"),
             "keys_total" => KeysTotal,
+            "pair_parent" => PairRaw(k(1)?),
+            "pair_child" => PairChild(k(1)?, parse_keys(a(2)?)?),
+            "pair_child_ref" => PairChildRef(k(1)?, parse_keys(a(2)?)?),
+            "triple_child" => TripleChild(k(1)?, k(2)?, parse_keys(a(3)?)?),
             _ => return None,
         })
     }
@@ -1043,6 +1142,7 @@ impl Op {
             Op::Retain(RawFn::CfgRaw) => "retain cfg_raw".into(),
             Op::Retain(RawFn::SumRaw) => "retain sum_raw".into(),
             Op::Retain(RawFn::ValRaw(k)) => format!("retain val_raw {k}"),
+            Op::Retain(RawFn::PairRaw(x)) => format!("retain pair_parent {x}"),
             Op::RetainHandle(i) => format!("retainh {i}"),
             Op::ClearRetain(i) => format!("clear {i}"),
             Op::NeverGc(i) => format!("never {i}"),
@@ -1066,6 +1166,7 @@ impl Op {
                 "cfg_raw" => RawFn::CfgRaw,
                 "sum_raw" => RawFn::SumRaw,
                 "val_raw" => RawFn::ValRaw(a(2)?.parse().ok()?),
+                "pair_parent" => RawFn::PairRaw(a(2)?.parse().ok()?),
                 _ => return None,
             }),
             "retainh" => Op::RetainHandle(a(1)?.parse().ok()?),
@@ -1133,6 +1234,10 @@ fn obtain_int<R: Reader>(r: &R, key: IntKey, top: &mut Vec<Node>) -> R::IntH {
             top.push(Node::SumRaw);
             r.sum_raw()
         }
+        IntKey::PairRaw(x) => {
+            top.push(Node::PairParent(x));
+            r.pair_parent(x)
+        }
         IntKey::Interned(v) => r.intern_int(v),
     }
 }
@@ -1178,10 +1283,11 @@ pub fn perform<R: Reader>(r: &R, spec: &CallSpec) -> Performed<R::IntH, R::RowH>
             top.push(Node::Branchy);
             vec![r.branchy() as i64]
         }
-        CfgRaw | ValRaw(_) | SumRaw => {
+        CfgRaw | ValRaw(_) | SumRaw | PairRaw(_) => {
             let key = match spec {
                 CfgRaw => IntKey::CfgRaw,
                 ValRaw(k) => IntKey::ValRaw(*k),
+                PairRaw(x) => IntKey::PairRaw(*x),
                 _ => IntKey::SumRaw,
             };
             let h = obtain_int(r, key, &mut top);
@@ -1257,6 +1363,18 @@ pub fn perform<R: Reader>(r: &R, spec: &CallSpec) -> Performed<R::IntH, R::RowH>
             top.push(Node::KeysTotal);
             vec![r.keys_total()]
         }
+        PairChild(x, ys) => {
+            top.push(Node::PairChild(*x, ys.clone()));
+            vec![r.pair_child(*x, ys.clone()) as i64]
+        }
+        PairChildRef(x, ys) => {
+            top.push(Node::PairChildRef(*x, ys.clone()));
+            vec![r.pair_child_ref(*x, ys)]
+        }
+        TripleChild(x, y, ys) => {
+            top.push(Node::TripleChild(*x, *y, ys.clone()));
+            vec![r.triple_child(*x, *y, ys.clone()) as i64]
+        }
         RowParamVia(n, b) => {
             let h = if *b {
                 top.push(Node::RowRefB(*n));
@@ -1309,6 +1427,10 @@ pub fn model_deps(st: &State, n: &Node) -> (Vec<Dep>, BTreeSet<Src>, BTreeSet<No
         Node::UseChain => drop(m.use_chain()),
         Node::RowParam(row) => drop(m.row_param(*row)),
         Node::KeysTotal => drop(m.keys_total()),
+        Node::PairParent(x) => drop(m.pair_parent(*x)),
+        Node::PairChild(x, ys) => drop(m.pair_child(*x, ys.clone())),
+        Node::PairChildRef(x, ys) => drop(m.pair_child_ref(*x, ys)),
+        Node::TripleChild(x, y, ys) => drop(m.triple_child(*x, *y, ys.clone())),
         Node::InternVal(_) | Node::InternRow(_) => return (vec![], BTreeSet::new(), BTreeSet::new()),
     }
     let f = m.root.borrow_mut().take().expect("root frame");
@@ -1322,6 +1444,7 @@ fn model_handle(st: &State, key: IntKey) -> MInt {
         IntKey::CfgRaw => m.cfg_raw(),
         IntKey::ValRaw(k) => m.val_raw(k),
         IntKey::SumRaw => m.sum_raw(),
+        IntKey::PairRaw(x) => m.pair_parent(x),
         IntKey::Interned(v) => MInt { key, val: v },
     }
 }
@@ -1357,6 +1480,10 @@ pub fn model_value(st: &State, n: &Node) -> Val {
         Node::UseChain => vec![m.use_chain() as i64],
         Node::RowParam(row) => vec![m.row_param(*row) as i64],
         Node::KeysTotal => vec![m.keys_total()],
+        Node::PairParent(x) => vec![m.pair_parent(*x).val as i64],
+        Node::PairChild(x, ys) => vec![m.pair_child(*x, ys.clone()) as i64],
+        Node::PairChildRef(x, ys) => vec![m.pair_child_ref(*x, ys)],
+        Node::TripleChild(x, y, ys) => vec![m.triple_child(*x, *y, ys.clone()) as i64],
         Node::InternVal(v) => vec![*v as i64],
         Node::InternRow(r) => vec![r.name as i64, r.score as i64],
     }
@@ -2068,6 +2195,7 @@ fn step_once(it: &mut Interp, step: usize, op: &Op, opts: &Options) -> Option<Fa
                 RawFn::CfgRaw => (CallSpec::CfgRaw, Node::CfgRaw),
                 RawFn::SumRaw => (CallSpec::SumRaw, Node::SumRaw),
                 RawFn::ValRaw(k) => (CallSpec::ValRaw(*k), Node::ValRaw(*k)),
+                RawFn::PairRaw(x) => (CallSpec::PairRaw(*x), Node::PairParent(*x)),
             };
             if !it.in_contract(&spec) || (opts.exclude_absent_singleton_read && it.reads_absent_singleton(&spec)) {
                 it.out.skipped_ops += 1;
